@@ -83,7 +83,7 @@ func (h *harness) RunCmd(c model.Cmd, file string) (result, error) {
 	}
 	sumArgs := util.SummaryArgs{SummaryText: sum, Resume: c.Resume, ResumeNth: c.ResumeNth}
 	out := util.OutputFileArgs{File: app.FileOrBookmarkName(file)}
-	warn := util.WarnArgs{NoWarn: true}
+	warn := util.WarnArgs{NoWarn: h.noWarn} // warnings are printed after the file was written: part of the command
 	noStyle := util.NoStyleArgs{NoStyle: true}
 	switch c.Kind {
 	case "track":
